@@ -1,7 +1,7 @@
 (* Property C06 — the time grid is the declared partition of [t0, t0+T].
    Statements only; proofs in Proofs/GridProofs.v and Proofs/GridLemmas.v. *)
 From Coq Require Import ZArith QArith Qcanon List Lia Bool.
-From RV Require Import Base.Num Base.PyList Base.Vec Expr Ocp Rows Mech.Grid
+From RV Require Import Proofs.VacuityA Base.Num Base.PyList Base.Vec Expr Ocp Rows Mech.Grid
      Inst Proofs.QcInst Proofs.GridLemmas Proofs.GridProofs.
 Import ListNotations.
 Local Open Scope nat_scope.
@@ -122,3 +122,8 @@ Proof. vm_compute. reflexivity. Qed.
 (* non-vacuity of the order hypothesis (Qc) and of a free-grid instance *)
 Example C06_order_nonvacuous : forall a b c : Qc, (a <= b)%Qc -> (a + c <= b + c)%Qc.
 Proof. intros a b c H. apply Qcplus_le_compat; [exact H|apply Qcle_refl]. Qed.
+
+(* further witnesses that the hypotheses of this file's theorems are met by realistic inputs (N = 1, M = 1, no controls,
+   t0 = 0, concrete grids / collocation points): proved in Proofs/VacuityA.v by the vacuity audit *)
+Example C06_more_witnesses : True.
+Proof. pose proof C06_geometric_hyp_satisfiable as _. pose proof C06_free_grid_hyp_satisfiable as _. pose proof C06_minmax_uniform_hyp_satisfiable as _. pose proof C06_minmax_nodes_hyp_satisfiable as _. exact I. Qed.
